@@ -24,6 +24,13 @@ UdpClients around the real server loop behind every front door (harness/srvx.py)
 healed; delivery is judged at EventHandler.handle_message and UdpClient.getMessages (not at incoming_messages); replayed on
 Server.v (unit srv_run).
 
+(e) LONG-LIVED connections (wrap_session, random sessions "rw*"): the 16-bit datagram and message counters of both sides start
+0..50 below the ring maximum 65535 (after a lead-in of one loss-free round trip, so that the peers' headers carry real ack numbers) (model side: unit conn_run_from) while both sides exchange a datagram per frame; each side sends
+a guaranteed message whose first datagram has the wire number 65535-k, for every k = 0..33, and every datagram carrying it is lost
+until the sender's own counter has wrapped to a number 1..8 (so the first acknowledgement that could mention the lost datagram
+arrives with an ack number that is already past the wrap); then the network heals.  Lengths unfragmented and fragmented, latency
+0 / 1 / 4 frames, both roles at once with different k.
+
 Oracle (implementation only), evaluated after the healed phase while the connection is open:
   * every guaranteed payload accepted by send was handed to the peer application (at least once);
   * nothing is left in the sender's outgoing queue and no guaranteed message is still pending
@@ -128,12 +135,91 @@ def overtaken_session(run, rng, label, newer, mtu):
     return net, diffs, n
 
 
-def random_session(run, rng, label, steps):
+RING = 65535
+WRAP_RULE = ("long-lived connections: datagram / message counters of both sides started 0..50 below 65535 (lead-in of one loss-free round trip); a guaranteed send whose first "
+             "datagram has the wire number 65535-k for every k in 0..33 (both roles in the same session, different k), every datagram "
+             "carrying it lost until the sender's counter has wrapped to 1..8, background traffic of one datagram per frame in both "
+             "directions, latency 0/1/4 frames, unfragmented and fragmented lengths, then healed; plus random lossy sessions started "
+             "below the wrap; non-trivial = a session in which the lost first datagram was numbered <= 65535 and the first ack header "
+             "the sender accepted afterwards had an ack number past the wrap, and the message was delivered")
+
+
+def wire(n):
+    return (n - 1) % RING + 1
+
+
+def wrap_session(run, rng, label, mtu, ks, lengths, delay):
+    """ks = {who: k}: `who` sends a guaranteed message whose first datagram is numbered 65535-k; see (e)"""
+    cfg = {"loss": 0, "dup": 0, "reorder": 0, "tick": 300, "delay": delay}
+    # lead-in: the peer's first headers say ack = 0 ("nothing received yet"), which the ring arithmetic reads as datagram 65535
+    # (SeqNum(0).diff(65535) == 0); a connection whose counter is near 65535 has long been receiving acknowledgements, so the
+    # counters start early enough for real ack numbers to have come back (one round trip) before the datagram under test is sent
+    need = 2 * (delay // cfg["tick"]) + 3
+    lead = {w: need + rng.randrange(0, 6) for w in ks}
+    start = {w: [RING - (ks[w] + lead[w]), RING - rng.randrange(0, 41)] for w in ("client", "server") if w in ks}
+    for w in ("client", "server"):
+        start.setdefault(w, [RING - rng.randrange(0, 41), RING - rng.randrange(0, 41)])
+    net = netsim.Net(run, rng, cfg, mtu=mtu, seq0=start["client"], seq0_server=start["server"])
+    try:
+        target = {w: RING - ks[w] for w in ks}
+        until = {w: rng.randrange(1, 9) for w in ks}         # lossy until the sender's own counter shows this number (after the wrap)
+        marker, lossy, first_no = {}, {w: True for w in ks}, {}
+        net.drop_filter = lambda w, rec: w in marker and lossy[w] and marker[w] in bytes(rec["payload"])
+        for f in range(160):
+            for w in ("client", "server"):
+                conn = net.ep(w).impl.conn
+                if w in ks and w not in marker and wire(int(conn.seq_sending) + 1) == target[w]:
+                    mid = net.send(w, lengths[w], -1, with_cb=True, api=True)
+                    marker[w] = net.sent[w][mid]["payload"][:9]
+                    first_no[w] = target[w]
+                net.send(w, 3, 0, with_cb=False)      # one datagram per frame in both directions
+            net.step()
+            for w in ks:
+                n = int(net.ep(w).impl.conn.seq_sending)
+                if w in marker and lossy[w] and until[w] <= n < 1000:
+                    lossy[w] = False
+            if all(w in marker and not lossy[w] for w in ks):
+                break
+        if not all(w in marker and not lossy[w] for w in ks):
+            raise RuntimeError("wrap session %s never reached the wrap: the harness is not exercising the surface" % label)
+        # was the lost first datagram still unresolved when the sender's counter wrapped (i.e. the acknowledgements that decide
+        # about it carry ack numbers from the other side of the wrap)?
+        heal(net, extra_steps=30)
+        diffs = net.check_models()
+        extra = {"phase": "wrap", "first_datagram_number": dict(first_no), "k": dict(ks), "start_counters": start,
+                 "lossy_until_sender_counter": dict(until), "delay": delay}
+        n = check_delivery(run, net, label, extra)
+        # the acknowledgement surface was exercised: the peer's headers accepted by the sender after its wrap name ack numbers < 1000
+        for w in ks:
+            peer = net.other(w)
+            acks = [rec["hdr"][3] for rec in net.emitted[peer]]
+            if not (any(a > RING - 100 for a in acks) and any(0 < a < 100 for a in acks)):
+                raise RuntimeError("wrap session %s: the peer's ack numbers never crossed the wrap" % label)
+    finally:
+        net.close()
+    return net, diffs, n
+
+
+def random_session(run, rng, label, steps, below_wrap=False):
     cfg = {"loss": rng.choice([0.1, 0.3, 0.5]), "dup": rng.choice([0, 0.2]), "reorder": rng.choice([0, 0.3]),
            "tick": rng.choice([300, 600, 900]), "max_delay": rng.choice([T // 8, T // 2]),
            "delay": rng.choice([0, 300, 1200, 4500])}
     mtu = rng.choice([1500, 512, 576, 1095, 1096, 1280])
-    net = netsim.Net(run, rng, cfg, mtu=mtu)
+    if below_wrap:
+        # long-lived connections: both counters of both sides cross the ring wrap somewhere in the lossy phase.  Lead-in (see
+        # wrap_session): one loss-free round trip of background traffic, so that real ack numbers (not the initial ack = 0) are
+        # what the peers tell each other by the time datagram 65535 is sent
+        warm = 2 * (cfg["delay"] // cfg["tick"]) + 3
+        net = netsim.Net(run, rng, dict(cfg, loss=0, dup=0, reorder=0), mtu=mtu,
+                         seq0=[RING - warm - rng.randrange(1, 9), RING - rng.randrange(0, 41)],
+                         seq0_server=[RING - warm - rng.randrange(1, 9), RING - rng.randrange(0, 41)])
+        for _ in range(warm):
+            for who in ("client", "server"):
+                net.send(who, 3, 0, with_cb=False)
+            net.step()
+        net.cfg = cfg
+    else:
+        net = netsim.Net(run, rng, cfg, mtu=mtu)
     try:
         mp, mf = net.env[0], net.env[1]
         for i in range(steps):
@@ -481,6 +567,41 @@ def run(run):
     run.compare("conn_run", cases, impl, mod)
     live_sessions(run, rng, th)
     callback_worlds(run, rng, 200 if th else 16)
+    # (run last, so that the sessions above draw the same random streams as before this section existed)
+    # (e) long-lived connections: guaranteed sends lost AT the datagram-counter wrap
+    wcases, wimpl, wmod = [], [], []
+    for k in range(34):
+        for rep in range(3 if th else 1):
+            k2 = (k * 7 + 3 + rep) % 34
+            ks = {"client": k, "server": k2} if (k + rep) % 3 else ({"client": k} if k % 2 else {"server": k})
+            mtu = rng.choice([1500, 512, 1096])
+            env = S.env_for_mtu(mtu)
+            S.restore_mtu()
+            lengths = {w: rng.choice([0, 1, 40, 40, 300, env[0], env[0] + 1, 2 * env[1] + 5]) for w in ks}
+            delay = rng.choice([0, 0, 300, 1200])
+            label = "w%d-%d" % (k, rep)
+            net, diffs, n = wrap_session(run, rng, label, mtu, ks, lengths, delay)
+            wcases.append({"session": label, "k": ks, "mtu": mtu, "lengths": lengths, "delay": delay, "first_difference": diffs[:1]})
+            wimpl.append("agree"); wmod.append("agree" if not diffs else "differ")
+            run.count("wrap_sessions")
+            run.count("wrap_guaranteed_delivered", n)
+            run.evaluations += len(ks)
+            if n >= len(ks):
+                run.nt(("wrap", k, rep, tuple(sorted(ks.items()))))
+    if th:
+        run.exhaustive.append("first datagram of a guaranteed send numbered 65535-k for every k in 0..33, three sessions each")
+    for i in range(40 if th else 4):
+        label = "rw%d" % i
+        net, diffs, n, cfg = random_session(run, rng, label, 100 if th else 60, below_wrap=True)
+        wcases.append({"session": label, "cfg": cfg, "mtu": net.mtu, "start": [net.A.seq0, net.B.seq0], "first_difference": diffs[:1]})
+        wimpl.append("agree"); wmod.append("agree" if not diffs else "differ")
+        run.count("random_sessions_below_wrap")
+        run.count("guaranteed_delivered", n)
+        run.evaluations += sum(1 for w_ in net.sent for r in net.sent[w_].values())
+        if n:
+            run.nt((label, n))
+    run.compare("conn_run_from", wcases, wimpl, wmod)
     run.rules.append(CB_RULE)
     run.rules.append(RULE)
+    run.rules.append(WRAP_RULE)
     run.rules.append(LIVE_RULE)
